@@ -129,7 +129,7 @@ def project(impl, n):
 
 
 def oracle(case, impl):
-    if case["line"].startswith("c17q ") or case["line"].startswith("c17p "):
+    if case["line"].startswith("c17q ") or case["line"].startswith("c17qd ") or case["line"].startswith("c17p "):
         return _c17.oracle(case, impl)
     if case["line"].startswith("c02h "):
         return _h.oracle(case, impl, "reclamation")
@@ -200,7 +200,7 @@ def shrink(case):
 
 
 def agree(case, impl, model):
-    if case["line"].startswith("c17q ") or case["line"].startswith("c17p "):
+    if case["line"].startswith("c17q ") or case["line"].startswith("c17qd ") or case["line"].startswith("c17p "):
         return _c17.agree(case, impl, model)
     if case["line"].startswith("c02h "):
         return _h.agree(case, impl, model)
